@@ -35,9 +35,11 @@ PROPS = {
         "summary": ("String built-ins against their specification: tw::find / maximal_suffix / crit_period and replace are extracted "
                     "from the real source and verified by Verus for all inputs against recursive spec functions written from the "
                     "property statement (first occurrence or None; leftmost non-overlapping substitution), including termination "
-                    "and absence of panics; slice index arithmetic over every pair of f64 bounds by Kani."),
+                    "and absence of panics; slice index arithmetic over every pair of f64 bounds by Kani; that find ANSWERS in characters (the unit len "
+                    "and slice use; it answered in bytes until fix b17dd8d) on a concrete table (bounded)."),
         "not_covered": ("std wrappers (trim, to_uppercase, to_lowercase, to_number, split, chars().count()) are one-line delegations "
-                        "whose Unicode/IEEE behaviour is assumed from std; memchr's AVX2 implementation is an external contract."),
+                        "whose Unicode/IEEE behaviour is assumed from std -- which is how a per-character to_lowercase that ignored Final_Sigma "
+                        "went unnoticed until a differential run (fix a78ad3f: now str::to_lowercase); memchr's AVX2 implementation is an external contract."),
         "trusted_base": [VERUS_TRUST, KANI_TRUST, "memchr_rs::memchr/memchr2 behave as documented (external contracts)"],
     },
     "C07": {
